@@ -227,16 +227,16 @@ def _one_field(prog: Program, res: Result):
     q = f"{GF}.calc_g_func_for_multiple_lengths"
     fi = prog.func(q)
     res.analysed(q)
+    # whatever way the constructor is called (positional, keywords, ** of a literal dictionary): its bore_locations argument is
+    # this function's own coordinates parameter, unchanged
+    from ..custody import call_sites, root_of
+
+    ginit = prog.func(f"{GF}.GFunction.__init__")
     ok = False
-    for n in ast.walk(fi.node):
-        if isinstance(n, ast.Dict):
-            for k, v in zip(n.keys, n.values):
-                if isinstance(k, ast.Constant) and k.value == "bore_locations":
-                    ok = isinstance(v, ast.Name) and v.id == "coordinates"
-        if isinstance(n, ast.Call) and attr_chain(n.func) == "GFunction":
-            for kw in n.keywords:
-                if kw.arg == "bore_locations":
-                    ok = isinstance(kw.value, ast.Name) and kw.value.id == "coordinates"
+    for cfi, cnode, bound in call_sites(prog, ginit):
+        if cfi is fi and "bore_locations" in bound:
+            r_ = root_of(fi.node, bound["bore_locations"])
+            ok = r_[0] == "param" and r_[1] == "coordinates"
     res.ob("R20.3", "the g-function object records the coordinates it was computed for as bore_locations (hence nbh = N)", ok, prog.loc(fi, fi.node))
     if not ok:
         res.violation("R20.3", "bore-locations", prog.loc(fi, fi.node), q, "calc_g_func_for_multiple_lengths does not store its coordinates as bore_locations: nbh no longer equals the number of boreholes the flow was split over")
